@@ -312,7 +312,7 @@ func runC20(t testingT, p *Program) *Result {
 			// bounded liveness: after everything expired, an acquire succeeds within 2 attempts
 			allDone := true
 			for _, tk := range sch.Tasks {
-				if !tk.done {
+				if _, d, _ := tk.state(); !d {
 					allDone = false
 				}
 			}
@@ -346,11 +346,11 @@ func runC20(t testingT, p *Program) *Result {
 			res.Probes["sched_steps"] = sch.Steps
 			// unfinished tasks are parked forever; release them so the bubble can end
 			for _, tk := range sch.Tasks {
-				if !tk.done {
+				if _, d, _ := tk.state(); !d {
 					res.Probes["unfinished_tasks"]++
 				}
 			}
-			drain(sch)
+			sch.Drain(0, 50)
 		})
 	}()
 	<-done
@@ -361,16 +361,6 @@ func runC20(t testingT, p *Program) *Result {
 	res.Events = events
 	res.WallMs = time.Since(wall).Milliseconds()
 	return res
-}
-
-// drain lets every unfinished task run to completion (one at a time) so that
-// the bubble can end.
-func drain(s *Sched) {
-	s.Advances = nil
-	s.Choices = nil
-	s.MaxSteps = 10000
-	s.OnStep = nil
-	_ = s.Run()
 }
 
 func init() {
